@@ -98,12 +98,17 @@ impl MappingInfo {
         linux_gate_loc: Option<AuxvType>,
     ) -> Result<Vec<Self>> {
         let mut infos = Vec::<Self>::new();
+        // Whether the file behind each entry of `infos` shows as deleted in the map. A file and
+        // a deleted one of the same path (a library that was replaced and loaded again) are
+        // different files, their mappings must not be merged.
+        let mut deleted = Vec::<bool>::new();
 
         for mm in memory_maps {
             let start_address: usize = mm.address.0.try_into()?;
             let end_address: usize = mm.address.1.try_into()?;
             let mut offset: usize = mm.offset.try_into()?;
 
+            let is_deleted = matches!(&mm.pathname, MMapPath::Path(p) if p.as_os_str().as_bytes().ends_with(DELETED_SUFFIX));
             let mut pathname: Option<OsString> = match mm.pathname {
                 MMapPath::Path(p) => Some(sanitize_path(p.into())),
                 MMapPath::Heap => Some("[heap]".into()),
@@ -131,6 +136,7 @@ impl MappingInfo {
                 if (start_address == prev_module.end_address())
                     && pathname.is_some()
                     && (pathname == prev_module.name)
+                    && deleted.last() == Some(&is_deleted)
                 {
                     // Merge adjacent mappings into one module, assuming they're a single
                     // library mapped by the dynamic linker.
@@ -170,11 +176,15 @@ impl MappingInfo {
                 if empty_page {
                     let prev_prev_module = previous_modules.first_mut().unwrap();
 
-                    if pathname == prev_prev_module.name {
+                    if pathname == prev_prev_module.name
+                        && deleted.len() >= 2
+                        && deleted[deleted.len() - 2] == is_deleted
+                    {
                         prev_prev_module.system_mapping_info.end_address = end_address;
                         prev_prev_module.size = end_address - prev_prev_module.start_address;
                         prev_prev_module.permissions |= mm.perms;
                         infos.pop();
+                        deleted.pop();
                         continue;
                     }
                 }
@@ -191,6 +201,7 @@ impl MappingInfo {
                 permissions: mm.perms,
                 name: pathname,
             });
+            deleted.push(is_deleted);
         }
         Ok(infos)
     }
